@@ -786,6 +786,10 @@ private:
       // To prevent this, whenever we receive a Flush event, we clean up any invalidated thread contexts
       // before notifying the caller. This ensures that when `flush_log()` is invoked in `DllMain`
       // during `DLL_PROCESS_DETACH`, the `ThreadContext` is properly cleaned up before the DLL exits.
+      //
+      // A thread context that is removed here takes its failure counter with it, report any dropped
+      // messages / blocking occurrences first, as the idle path and _exit() do before their clean up
+      _check_failure_counter(_options.error_notifier);
       _cleanup_invalidated_thread_contexts();
 
       // Now it’s safe to notify the caller to continue execution.
